@@ -74,51 +74,76 @@ def clipLocate (L : Int) (sp : Int × Int) : Except FErr (List MSpan) :=
 def realSpans (m : List MSpan) : List (Int × Int) :=
   m.filterMap fun | .span s e => some (s, e) | .lost _ => none
 
-theorem clip_bounds (L s e : Int) (hL : 0 < L) (hse : s < e) (he : e ≠ 0) (c : Int × Int)
+/-- what one view-relative span contributes: its intersection with `[0, L)`, if non-empty -/
+def clipped (L : Int) (sp : Int × Int) : Option (Int × Int) :=
+  if max sp.1 0 < min sp.2 L then some (max sp.1 0, min sp.2 L) else none
+
+/-- `locate` on a span that came out of `clipSpan` (total) -/
+def locOk (L : Int) (c : Int × Int) : List MSpan :=
+  if c.2 > L then [.span c.1 (min c.2 L), .lost (c.2 - L)] else [.span c.1 c.2]
+
+theorem clip_some (L s e : Int) (hL : 0 < L) (hse : s < e) (c : Int × Int)
     (h : clipSpan L (s, e) = some c) :
-    0 ≤ c.1 ∧ c.1 ≤ c.2 ∧ c.1 ≤ L ∧ c.1 = max s 0 ∧ min c.2 L = min e L ∧ (max s 0 < min e L ∨ s = L) := by
+    0 ≤ c.1 ∧ c.1 ≤ c.2 ∧ c.1 ≤ L ∧ c.1 = max s 0 ∧ min c.2 L = min e L ∧ max s 0 < min e L := by
   unfold clipSpan at h
   simp only [] at h
   rw [show min s e = s by omega, show max s e = e by omega] at h
   obtain ⟨c1, c2⟩ := c
   (repeat' split at h) <;> simp only [Option.some.injEq, reduceCtorEq, Prod.mk.injEq] at h <;> simp only [] <;> omega
 
-theorem clipLocate_exact (L s e : Int) (hL : 0 < L) (hse : s < e) (he : e ≠ 0) :
+theorem clip_none (L s e : Int) (hse : s < e) (h : clipSpan L (s, e) = none) :
+    ¬ (max s 0 < min e L) := by
+  unfold clipSpan at h
+  simp only [] at h
+  rw [show min s e = s by omega, show max s e = e by omega] at h
+  (repeat' split at h) <;> simp only [reduceCtorEq] at h
+  omega
+
+theorem clipSpan_clipped (L : Int) (hL : 0 < L) (sp : Int × Int) (hse : sp.1 < sp.2) :
+    (clipSpan L sp).map (fun c => (c.1, min c.2 L)) = clipped L sp := by
+  obtain ⟨s, e⟩ := sp
+  simp only [] at hse
+  unfold clipped
+  cases hc : clipSpan L (s, e) with
+  | none => have := clip_none L s e hse hc; simp [this]
+  | some c =>
+    obtain ⟨_, _, _, h3, h4, h5⟩ := clip_some L s e hL hse c hc
+    simp only [Option.map_some, h5, if_true, Option.some.injEq, Prod.mk.injEq]
+    exact ⟨h3, h4⟩
+
+theorem locate_clip (L s e : Int) (hL : 0 < L) (hse : s < e) (c : Int × Int)
+    (hc : clipSpan L (s, e) = some c) : locate L c = .ok (locOk L c) := by
+  obtain ⟨h0, h1, h2, _, _, _⟩ := clip_some L s e hL hse c hc
+  unfold locate locOk
+  have n1 : ¬ (c.1 > c.2 ∨ min c.1 c.2 < 0) := by omega
+  have n2 : ¬ (c.1 > L) := by omega
+  simp only [n1, n2, if_false]
+  split <;> rfl
+
+theorem realSpans_locOk (L : Int) (c : Int × Int) : realSpans (locOk L c) = [(c.1, min c.2 L)] := by
+  unfold locOk realSpans
+  split
+  · simp
+  · simp only [List.filterMap_cons, List.filterMap_nil, List.cons.injEq, Prod.mk.injEq, true_and, and_true]
+    omega
+
+/-- one span, full strength: the real part is exactly span ∩ view; never an error -/
+theorem clipLocate_exact (L s e : Int) (hL : 0 < L) (hse : s < e) :
     ∃ m, clipLocate L (s, e) = .ok m ∧
-      realSpans m = (if max s 0 < min e L ∨ s = L then [(max s 0, min e L)] else []) ∧
+      realSpans m = (if max s 0 < min e L then [(max s 0, min e L)] else []) ∧
       (∀ a b, MSpan.span a b ∈ m → 0 ≤ a ∧ a ≤ b ∧ b ≤ L) := by
   unfold clipLocate
   cases hc : clipSpan L (s, e) with
   | none =>
-    unfold clipSpan at hc
-    simp only [] at hc
-    rw [show min s e = s by omega, show max s e = e by omega] at hc
-    (repeat' split at hc) <;> simp only [reduceCtorEq] at hc
-    have : ¬ (max s 0 < min e L ∨ s = L) := by omega
+    have := clip_none L s e hse hc
     exact ⟨[], rfl, by simp [this, realSpans], by simp⟩
   | some c =>
-    have hb := clip_bounds L s e hL hse he c hc
-    obtain ⟨c1, c2⟩ := c
-    simp only [] at hb
-    obtain ⟨h0, h1, h2, h3, h4, hk⟩ := hb
-    unfold locate
-    simp only [hk, if_true]
-    have n1 : ¬ (c1 > c2 ∨ min c1 c2 < 0) := by omega
-    have n2 : ¬ (c1 > L) := by omega
-    simp only [n1, n2, if_false]
-    split
-    · refine ⟨_, rfl, ?_, ?_⟩
-      · simp only [realSpans, List.filterMap_cons, List.filterMap_nil]
-        rw [h3, h4]
-      · intro a b hm
-        simp only [List.mem_cons, MSpan.span.injEq, reduceCtorEq, List.not_mem_nil, or_false] at hm
-        omega
-    · refine ⟨_, rfl, ?_, ?_⟩
-      · simp only [realSpans, List.filterMap_cons, List.filterMap_nil]
-        rw [h3, ← h4, show min c2 L = c2 by omega]
-      · intro a b hm
-        simp only [List.mem_cons, MSpan.span.injEq, List.not_mem_nil, or_false] at hm
-        omega
+    obtain ⟨h0, h1, h2, h3, h4, h5⟩ := clip_some L s e hL hse c hc
+    refine ⟨locOk L c, locate_clip L s e hL hse c hc, ?_, ?_⟩
+    · rw [realSpans_locOk L c, h3, h4]; simp [h5]
+    · intro a b hm
+      unfold locOk at hm
+      split at hm <;> simp only [List.mem_cons, MSpan.span.injEq, reduceCtorEq, List.not_mem_nil, or_false] at hm <;> omega
 
 theorem queryWindow_exact (v : View) (h : UnitView v) (a b : Int) (ha : 0 ≤ a) (hab : a < b) (hb : b ≤ len v)
     (hoff : 0 ≤ v.offset) :
@@ -150,77 +175,183 @@ theorem queryWindow_exact (v : View) (h : UnitView v) (a b : Int) (ha : 0 ≤ a)
     simp [hs, liftErr, Functor.map, Except.map, ha, hb0]
     omega
 
-theorem mapExcept_ok {α β ε} (f : α → Except ε β) (P : β → Prop) (l : List α)
-    (h : ∀ x ∈ l, ∃ y, f x = .ok y ∧ P y) : ∃ ys, mapExcept f l = .ok ys ∧ ∀ y ∈ ys, P y := by
+theorem mapExcept_eq_map {α β ε} (f : α → Except ε β) (g : α → β) (l : List α)
+    (h : ∀ x ∈ l, f x = .ok (g x)) : mapExcept f l = .ok (l.map g) := by
   induction l with
-  | nil => exact ⟨[], rfl, by simp⟩
+  | nil => rfl
   | cons x xs ih =>
-    obtain ⟨y, hy, py⟩ := h x List.mem_cons_self
-    obtain ⟨ys, hys, pys⟩ := ih (fun z hz => h z (List.mem_cons_of_mem _ hz))
-    refine ⟨y :: ys, ?_, ?_⟩
-    · simp [mapExcept, hy, hys]
-    · intro z hz
-      rcases List.mem_cons.mp hz with rfl | hz
-      · exact py
-      · exact pys z hz
+    simp [mapExcept, h x List.mem_cons_self, ih (fun z hz => h z (List.mem_cons_of_mem _ hz))]
 
 /-- all real spans of a map lie inside `[0, L]` -/
 def InView (L : Int) (m : List MSpan) : Prop := ∀ a b, MSpan.span a b ∈ m → 0 ≤ a ∧ a ≤ b ∧ b ≤ L
 
-theorem locate_of_clip (L s e : Int) (hL : 0 < L) (hse : s < e) (he : e ≠ 0) (c : Int × Int)
-    (hc : clipSpan L (s, e) = some c) : ∃ m, locate L c = .ok m ∧ InView L m := by
-  obtain ⟨m, hm, _, hin⟩ := clipLocate_exact L s e hL hse he
-  unfold clipLocate at hm
-  rw [hc] at hm
-  exact ⟨m, hm, hin⟩
+theorem realSpans_append (a b : List MSpan) : realSpans (a ++ b) = realSpans a ++ realSpans b := by
+  simp [realSpans, List.filterMap_append]
 
-theorem revSpan_ok (L : Int) (m : List MSpan) (h : InView L m) : ∃ r, mapExcept (revSpan L) m = .ok r := by
-  have := mapExcept_ok (revSpan L) (fun _ => True) m (by
-    intro x hx
+theorem realSpans_flatten (ms : List (List MSpan)) : realSpans ms.flatten = ms.flatMap realSpans := by
+  induction ms with
+  | nil => rfl
+  | cons m ms ih => simp [realSpans_append, ih, List.flatMap_cons]
+
+theorem mem_realSpans {m : List MSpan} {a b : Int} : (a, b) ∈ realSpans m ↔ MSpan.span a b ∈ m := by
+  unfold realSpans
+  rw [List.mem_filterMap]
+  constructor
+  · rintro ⟨x, hx, hx2⟩
     cases x with
-    | lost n => exact ⟨_, rfl, trivial⟩
-    | span a b =>
-      have := h a b hx
-      refine ⟨.span (L - b) (L - b + (b - a)), ?_, trivial⟩
-      unfold revSpan
-      have : ¬ (L - b < 0) := by omega
-      simp [this])
-  obtain ⟨r, hr, _⟩ := this
-  exact ⟨r, hr⟩
+    | lost n => simp at hx2
+    | span s e => simp only [Option.some.injEq, Prod.mk.injEq] at hx2; rw [← hx2.1, ← hx2.2]; exact hx
+  · intro h; exact ⟨_, h, rfl⟩
 
-theorem inView_pad (L : Int) (m : List MSpan) (h : InView L m) (p q : Int) (c : Prop) [Decidable c] :
-    InView L (if c then (if p ≠ 0 then [MSpan.lost p] else []) ++ m ++ (if q ≠ 0 then [MSpan.lost q] else []) else m) := by
+/-- the kept spans are located without error -/
+theorem kept_locate (L : Int) (hL : 0 < L) (rel : List (Int × Int)) (hrel : ∀ sp ∈ rel, sp.1 < sp.2) :
+    mapExcept (locate L) (rel.filterMap (clipSpan L)) = .ok ((rel.filterMap (clipSpan L)).map (locOk L)) := by
+  apply mapExcept_eq_map
+  intro c hc
+  obtain ⟨sp, h1, h2⟩ := List.mem_filterMap.mp hc
+  obtain ⟨s, e⟩ := sp
+  exact locate_clip L s e hL (hrel _ h1) c h2
+
+theorem realSpans_kept (L : Int) (hL : 0 < L) (rel : List (Int × Int)) (hrel : ∀ sp ∈ rel, sp.1 < sp.2) :
+    realSpans ((rel.filterMap (clipSpan L)).map (locOk L)).flatten = rel.filterMap (clipped L) := by
+  rw [realSpans_flatten]
+  induction rel with
+  | nil => rfl
+  | cons sp rest ih =>
+    have hsp := hrel sp List.mem_cons_self
+    have ih' := ih (fun z hz => hrel z (List.mem_cons_of_mem _ hz))
+    have hc := clipSpan_clipped L hL sp hsp
+    simp only [List.filterMap_cons]
+    cases h1 : clipSpan L sp with
+    | none =>
+      rw [h1] at hc; simp only [Option.map_none] at hc
+      simp only [← hc]; exact ih'
+    | some c =>
+      rw [h1] at hc; simp only [Option.map_some] at hc
+      simp only [← hc, List.map_cons, List.flatMap_cons, realSpans_locOk, ih']
+      rfl
+
+theorem inView_of_clipped (L : Int) (rel : List (Int × Int)) (m : List MSpan)
+    (h : realSpans m = rel.filterMap (clipped L)) : InView L m := by
   intro a b hm
-  by_cases hc : c <;> by_cases hp : p = 0 <;> by_cases hq : q = 0 <;>
-    simp [hc, hp, hq] at hm <;> exact h a b hm
+  have : (a, b) ∈ rel.filterMap (clipped L) := by rw [← h]; exact mem_realSpans.mpr hm
+  obtain ⟨sp, _, h2⟩ := List.mem_filterMap.mp this
+  unfold clipped at h2
+  split at h2
+  · simp only [Option.some.injEq, Prod.mk.injEq] at h2; omega
+  · cases h2
 
-theorem makeFeature_ok (L : Int) (rced minus : Bool) (spans : List (Int × Int)) (hL : 0 < L)
-    (hsp : ∀ sp ∈ spans, sp.1 < sp.2 ∧ sp.2 ≠ 0)
-    (hord : firstLastOk (spans.filterMap (clipSpan L)) = true) :
-    ∃ f, makeFeature L rced minus spans = .ok f := by
-  have hloc := mapExcept_ok (locate L) (InView L) (spans.filterMap (clipSpan L)) (by
-    intro c hc
-    obtain ⟨sp, hsp1, hsp2⟩ := List.mem_filterMap.mp hc
-    obtain ⟨s, e⟩ := sp
-    have := hsp (s, e) hsp1
-    exact locate_of_clip L s e hL this.1 this.2 c hsp2)
-  obtain ⟨ms, hms, hin⟩ := hloc
-  have hflat : InView L ms.flatten := by
-    intro a b hm
-    obtain ⟨m, hm1, hm2⟩ := List.mem_flatten.mp hm
-    exact hin m hm1 a b hm2
+/-- `FeatureMap.nucleic_reversed` on one span known to lie in the view (total) -/
+def revOk (L : Int) : MSpan → MSpan
+  | .lost n => .lost n
+  | .span s e => .span (L - e) (L - e + (e - s))
+
+theorem revSpan_eq (L : Int) (m : List MSpan) (h : InView L m) :
+    mapExcept (revSpan L) m = .ok (m.map (revOk L)) := by
+  apply mapExcept_eq_map
+  intro x hx
+  cases x with
+  | lost n => rfl
+  | span a b =>
+    have := h a b hx
+    unfold revSpan revOk
+    have : ¬ (L - b < 0) := by omega
+    simp [this]
+
+theorem realSpans_map_revOk (L : Int) (m : List MSpan) :
+    realSpans (m.map (revOk L)) = (realSpans m).map (fun p => (L - p.2, L - p.1)) := by
+  induction m with
+  | nil => rfl
+  | cons x xs ih =>
+    cases x with
+    | lost n => simpa [realSpans, revOk] using ih
+    | span a b =>
+      simp only [realSpans, List.map_cons, revOk, List.filterMap_cons] at ih ⊢
+      rw [ih]
+      simp only [List.map_cons, List.cons.injEq, Prod.mk.injEq, true_and, and_true]
+      omega
+
+theorem realSpans_reverse (m : List MSpan) : realSpans m.reverse = (realSpans m).reverse := by
+  simp [realSpans, List.filterMap_reverse]
+
+theorem realSpans_pad (m : List MSpan) (p q : Int) (c : Prop) [Decidable c] :
+    realSpans (if c then (if p ≠ 0 then [MSpan.lost p] else []) ++ m ++ (if q ≠ 0 then [MSpan.lost q] else []) else m)
+      = realSpans m := by
+  by_cases hc : c <;> by_cases hp : p = 0 <;> by_cases hq : q = 0 <;>
+    simp [hc, hp, hq, realSpans_append, realSpans]
+
+/-- head ≤ last under a pairwise relation -/
+theorem head_getLast_pairwise {α} (R : α → α → Prop) (l : List α) (h : l.Pairwise R) (f x : α)
+    (hf : l.head? = some f) (hx : l.getLast? = some x) : f = x ∨ R f x := by
+  cases l with
+  | nil => cases hf
+  | cons a t =>
+    simp only [List.head?_cons, Option.some.injEq] at hf
+    subst hf
+    cases t with
+    | nil => simp at hx; exact Or.inl hx
+    | cons b t' =>
+      right
+      have hmem : x ∈ b :: t' := by
+        rw [List.getLast?_cons_cons] at hx
+        exact List.mem_of_getLast? hx
+      exact (List.pairwise_cons.mp h).1 x hmem
+
+theorem firstLastOk_kept (L : Int) (hL : 0 < L) (rel : List (Int × Int)) (hrel : ∀ sp ∈ rel, sp.1 < sp.2)
+    (hsorted : rel.Pairwise (fun a b => a.1 ≤ b.1)) :
+    firstLastOk (rel.filterMap (clipSpan L)) = true := by
+  have hp : (rel.filterMap (clipSpan L)).Pairwise (fun a b => a.1 ≤ b.1 ∧ b.1 ≤ b.2) := by
+    have hs2 : rel.Pairwise (fun a b => a.1 ≤ b.1 ∧ a.1 < a.2 ∧ b.1 < b.2) := by
+      have := List.Pairwise.and_mem.mp hsorted
+      exact this.imp (fun ⟨ha, hb, hab⟩ => ⟨hab, hrel _ ha, hrel _ hb⟩)
+    refine List.Pairwise.filterMap (clipSpan L) ?_ hs2
+    intro a a' ⟨h1, h2, h3⟩ c hc c' hc'
+    obtain ⟨s, e⟩ := a
+    obtain ⟨s', e'⟩ := a'
+    have b1 := clip_some L s e hL h2 c hc
+    have b2 := clip_some L s' e' hL h3 c' hc'
+    simp only [] at h1
+    omega
+  unfold firstLastOk
+  cases hf : (rel.filterMap (clipSpan L)).head? with
+  | none => rfl
+  | some f =>
+    cases hx : (rel.filterMap (clipSpan L)).getLast? with
+    | none => rfl
+    | some x =>
+      have hx1 : x.1 ≤ x.2 := by
+        obtain ⟨sp, h1, h2⟩ := List.mem_filterMap.mp (List.mem_of_getLast? hx)
+        obtain ⟨s, e⟩ := sp
+        have := clip_some L s e hL (hrel _ h1) x h2
+        omega
+      rcases head_getLast_pairwise _ _ hp f x hf hx with h | h
+      · subst h; simp only [Bool.not_eq_true', decide_eq_false_iff_not]; omega
+      · simp only [Bool.not_eq_true', decide_eq_false_iff_not]; omega
+
+/-- `make_feature`, full strength: no exception, and the real spans of the map are exactly the
+intersections of the spans with the view (mirrored and in reverse order on an rc'd view) -/
+theorem makeFeature_spec (L : Int) (rced minus : Bool) (rel : List (Int × Int)) (hL : 0 < L)
+    (hrel : ∀ sp ∈ rel, sp.1 < sp.2) (hsorted : rel.Pairwise (fun a b => a.1 ≤ b.1)) :
+    ∃ f, makeFeature L rced minus rel = .ok f ∧ f.reversed = (minus != rced) ∧
+      realSpans f.spans =
+        (if rced then ((rel.filterMap (clipped L)).map (fun p => (L - p.2, L - p.1))).reverse
+         else rel.filterMap (clipped L)) := by
+  have hord := firstLastOk_kept L hL rel hrel hsorted
+  have hloc := kept_locate L hL rel hrel
+  have hreal := realSpans_kept L hL rel hrel
   unfold makeFeature spansFromLocations
-  simp only [hord, Bool.not_true, Bool.false_eq_true, if_false, hms]
-  generalize hm' : (if (if minOfSpans spans < 0 then -minOfSpans spans else 0) ≠ 0 ∨
-      (if maxOfSpans spans > L then maxOfSpans spans - L else 0) ≠ 0 then _ else ms.flatten) = m'
-  have hin' : InView L m' := by
-    subst hm'
-    exact inView_pad L _ hflat _ _ _
+  simp only [hord, Bool.not_true, Bool.false_eq_true, if_false, hloc]
+  generalize hm' : (if (if minOfSpans rel < 0 then -minOfSpans rel else 0) ≠ 0 ∨
+      (if maxOfSpans rel > L then maxOfSpans rel - L else 0) ≠ 0 then _ else
+        ((rel.filterMap (clipSpan L)).map (locOk L)).flatten) = m'
+  have hreal' : realSpans m' = rel.filterMap (clipped L) := by
+    subst hm'; rw [realSpans_pad]; exact hreal
+  have hin' : InView L m' := inView_of_clipped L rel m' hreal'
   cases rced with
-  | false => exact ⟨_, rfl⟩
+  | false => exact ⟨_, rfl, rfl, by simpa using hreal'⟩
   | true =>
-    obtain ⟨r, hr⟩ := revSpan_ok L m' hin'
-    simp only [if_true, hr]
-    exact ⟨_, rfl⟩
+    simp only [if_true, revSpan_eq L m' hin']
+    refine ⟨_, rfl, rfl, ?_⟩
+    simp only [realSpans_reverse, realSpans_map_revOk, hreal']
 
 end CogentModel.FeatureView
